@@ -344,6 +344,9 @@ func c13Matchers(c *Ctx) {
 						okCall = true
 					}
 				})
+				if allByContainsFunc(f) != nil {
+					okF, okT, okCall = true, true, true
+				}
 				r.Check(okF && okT && okCall, "C13-K4", pk+".IsAll: true iff every matcher accepts the packet", c.P.pos(f.Pos()), "false inside the loop on a rejecting matcher, true after it", fmt.Sprintf("false-in-loop=%v true-after=%v calls m(p)=%v", okF, okT, okCall))
 			case "IsMessageType":
 				// loop-free spelling: decided by truth table
